@@ -108,6 +108,12 @@ fn main() {
     if args[0] == "worker" {
         vcore::worker::worker_main(&sut, &args[1..]);
     }
+    if args[0] == "warm" {
+        vcore::probe::warm(vcore::probe::Kind::Fake);
+        vcore::probe::warm(vcore::probe::Kind::Real);
+        println!("probe workspaces warm");
+        return;
+    }
     if args[0] == "selftest" {
         vcore::selftest::run(&sut, &args[1..]);
     }
